@@ -5,7 +5,7 @@
 pat=${1:-*}
 root=/tmp/sm
 rm -rf $root; mkdir -p $root
-ls -d /verif/seeded/$pat/ 2>/dev/null | xargs -n1 basename | grep -E '^C[0-9]+-' > $root/all.txt
+ls -d /verif/seeded/$pat/ 2>/dev/null | xargs -n1 basename | grep -E '^C[0-9]+-' | while read n; do grep -q '"superseded"' /verif/seeded/$n/meta.json 2>/dev/null || echo $n; done > $root/all.txt
 W=${SEED_MATRIX_WORKERS:-8}
 for k in $(seq 1 $W); do git -C /repo worktree add --detach $root/w$k HEAD >/dev/null 2>&1; done
 # the checks run from a snapshot of /verif's committed state, so that /verif can be edited meanwhile
@@ -19,7 +19,7 @@ worker() {
     if ! git -C $wt apply /verif/seeded/$name/patch.diff 2>/dev/null; then echo "$name $p exit=NA patch does not apply"; continue; fi
     out=$(cd $root/verif && RXVC_REPO=$wt RXVC_EVIDENCE_DIR=$root/ev$k timeout 1500 python3-vt -m rxvc check $p --tier quick 2>&1)
     line=$(echo "$out" | grep -m1 "^VIOLATION" | cut -c1-160)
-    sumline=$(echo "$out" | tail -1 | cut -c1-200)
+    sumline=$(echo "$out" | grep -E "^\[C[0-9]+\] tier" | tail -1 | cut -c1-200)
     code=$(echo "$sumline" | grep -o "exit [0-9]*" | tail -1 | sed 's/exit //')
     echo "$name $p exit=${code:-?} ${line:-$sumline}"
     git -C $wt checkout -q -- .
